@@ -149,12 +149,16 @@ func c_memcpy
   requires n >= 0 && (n > 0 ==> inb(dst, n) && inb(src, n))
   requires n > 0 && dst.B == src.B ==> dst.O + n <= src.O || src.O + n <= dst.O
   modifies ddprt.Blk.$m
-  ensures forall b *Blk, k int :: b.$m[k] == ((b == dst.B && dst.O <= k && k < dst.O + n) ? old(src.B.$m[src.O + (k - dst.O)]) : old(b.$m[k]))
+  ensures forall k int :: dst.O <= k && k < dst.O + n ==> dst.B.$m[k] == old(src.B.$m[src.O + (k - dst.O)])
+  ensures forall k int :: !(dst.O <= k && k < dst.O + n) ==> dst.B.$m[k] == old(dst.B.$m[k])
+  ensures forall b *Blk :: b != dst.B ==> b.$m == old(b.$m)
 func c_memmove
   trusted
   requires n >= 0 && (n > 0 ==> inb(dst, n) && inb(src, n))
   modifies ddprt.Blk.$m
-  ensures forall b *Blk, k int :: b.$m[k] == ((b == dst.B && dst.O <= k && k < dst.O + n) ? old(src.B.$m[src.O + (k - dst.O)]) : old(b.$m[k]))
+  ensures forall k int :: dst.O <= k && k < dst.O + n ==> dst.B.$m[k] == old(src.B.$m[src.O + (k - dst.O)])
+  ensures forall k int :: !(dst.O <= k && k < dst.O + n) ==> dst.B.$m[k] == old(dst.B.$m[k])
+  ensures forall b *Blk :: b != dst.B ==> b.$m == old(b.$m)
 
 func strlen
   trusted
@@ -206,7 +210,8 @@ func c32rtomb
   modifies ddprt.Blk.$m
   ensures result == encLenG(p1)
   ensures validCp(p1) ==> (forall k int :: 0 <= k && k < result ==> byteAt(p0, k) == encByte(p1, k))
-  ensures forall b *Blk, k int :: !(b == p0.B && p0.O <= k && k < p0.O + 6) ==> b.$m[k] == old(b.$m[k])
+  ensures forall k int :: !(p0.O <= k && k < p0.O + 6) ==> p0.B.$m[k] == old(p0.B.$m[k])
+  ensures forall b *Blk :: b != p0.B ==> b.$m == old(b.$m)
   ensures forall k int :: encLenG(p1) >= 0 && p0.O + encLenG(p1) <= k ==> p0.B.$m[k] == old(p0.B.$m[k])
 func c_global_state
   trusted
@@ -227,7 +232,8 @@ func utf8_char_to_string [C12, C05]
   ensures validCp(c) ==> result == encLen(c) && byteAt(s, result) == 0 && (forall k int :: 0 <= k && k < result ==> byteAt(s, k) == encByte(c, k))
   ensures !validCp(c) ==> result == -1
   ensures result == -1 || (1 <= result && result <= 4)
-  ensures forall b *Blk, k int :: !(b == s.B && s.O <= k && k < s.O + 5) ==> b.$m[k] == old(b.$m[k])
+  ensures forall k int :: !(s.O <= k && k < s.O + 5) ==> s.B.$m[k] == old(s.B.$m[k])
+  ensures forall b *Blk :: b != s.B ==> b.$m == old(b.$m)
 // decodes the first character of the C string str into *out; returns its width (0 if malformed)
 func utf8_string_to_char [C12]
   requires str.B != nil ==> (exists n int :: nulAt(str, n))
